@@ -439,8 +439,9 @@ def defs_of_node(n: N):
         elif isinstance(st, (ast.FunctionDef, ast.ClassDef, ast.AsyncFunctionDef)):
             out.append(Def(st.name, n.id, "def", st))
     elif n.kind == "for":
+        paths = {id(nm): path for nm, path in _tuple_paths(n.ast)}
         for nm in _targets(n.ast):
-            out.append(Def(nm.id, n.id, "for", n.stmt.iter, None, nm))
+            out.append(Def(nm.id, n.id, "for", n.stmt.iter, paths.get(id(nm)) or None, nm))
     elif n.kind == "with":
         for item in n.ast.items:
             if item.optional_vars is not None:
